@@ -122,6 +122,8 @@ def run(ctx):
                           rate=0.3, scan=0.1, alias_pl=3),
         walk_limit=250 if quick else None,
         curves=("syn1", "rec1"))
+    if not quick:
+        curve_check.repo_test_traces(ctx, "C10_")
     pure = pure_entry_points(ctx)
     for ev in pure:
         if ev["exc"]:
